@@ -154,10 +154,12 @@ environment answers and every length the contact observes the same actions in th
 faces the same decisions (operand, ordered tests with their arguments, wait / timeout, result name)
 in the compiled flow as in the meaning of the rows.  Both readings are taken from ONE list of parsed
 rows (`CoreSheet.CRow`; `toEvent` / `toRRow` are cross-checked against the inputs the harness builds
-on every explored sheet).  The fragment: action rows and deciding rows (`wait_for_response` with or
-without timeout, `split_by_value`, `split_by_group`), any number of conditional or unconditional
-edges per row — chains, trees, joins, last-edge-wins defaults, tests appended in row order,
-"No Response" branches — under the single-meaning conditions `edgeOk` / `distinctTests`.
+on every explored sheet).  The fragment: action rows, deciding rows (`wait_for_response` with or
+without timeout, `split_by_value`, `split_by_group`) and the rows that produce no node (`go_to`:
+its edges enter the named rows, cycles included; `hard_exit` / `loose_exit`: the paths end), any
+number of conditional or unconditional edges per row — chains, trees, joins, last-edge-wins
+defaults, tests appended in row order, "No Response" branches — under the single-meaning conditions
+`edgeOk` / `distinctTests`.
 Proof: lock-step simulation of the compiler machine and pass 1 of the reference (after every prefix
 of the sheet, arena node `j` is the compiled form of row `j` with the out-edges recorded for `j`:
 `CoreSheet.Rel`, `row_sim`), then equality of the index-resolved abstractions of the two flows
@@ -185,7 +187,7 @@ theorem C02_fragment (testTypes : List Str) (rows : List CoreSheet.CRow) (out : 
 with a weaker `wf` than `inFragment` (the documented single-meaning conditions DESIGN §5 C02 WF,
 NoopStable) — conditional edges leaving action rows (a router node is created behind the action:
 two compiled nodes for one reference node), `split_random`, sub-flow / webhook / airtime rows,
-`go_to`, `hard_exit` / `loose_exit`, `no_op`, explicit category names, node merging, blocks.
+`no_op`, explicit category names, node merging, blocks.
 Decided per explored sheet by `flows_equiv_of_cert` on the real output. -/
 def C02_fragment_full (wf : List CoreSheet.CRow → Prop) : Prop :=
   ∀ (testTypes : List Str) (rows : List CoreSheet.CRow) (out : Compile.Out) (r : Flow.Flow),
@@ -200,19 +202,21 @@ def C02_fragment_full (wf : List CoreSheet.CRow → Prop) : Prop :=
 node identifier, a different action content in the documentation's table -/
 def mkRow (id type : String) (edges : List (String × String)) (act : Option String) (nr : String := "")
     (expr : String := "") (var : String := "") (name : String := "") (uuid : String := "")
-    (ract : Option String := none) : CoreSheet.CRow :=
+    (ract : Option String := none) (dests : List String := []) : CoreSheet.CRow :=
   { row := { rowId := id.toList, type := type.toList,
              edges := edges.map (fun (f, v) => ⟨f.toList, ⟨v.toList, if v = "" then [] else var.toList, [],
                                                           if v = "" then [] else name.toList⟩⟩),
              action := act.map String.toList, actionOk := true, ownAction := none, nodeUuid := uuid.toList,
              nodeName := [], saveName := "res".toList, noResponse := nr.toList, expression := expr.toList,
-             flowName := [], dests := [], resultKey := none, nodeOk := true },
+             flowName := [], dests := dests.map String.toList, resultKey := none, nodeOk := true },
     refAct := (match ract with | some x => some x | none => act).map String.toList }
 
 def exTests : List Str := ["has_any_word".toList, "has_group".toList]
 
 /-- a message, a wait with timeout left by two tests, an unconditional edge (default) and a
-"No Response" edge, a join into a group split, a value split, joins at the end -/
+"No Response" edge, a join into a group split, a value split, joins, a `hard_exit`, a `go_to` with two
+edges back to the first row (a cycle), a row after them with blank `from` (it follows the last
+node-producing row), a `loose_exit` -/
 def exRows : List CoreSheet.CRow :=
   [ mkRow "a" "send_message" [("start", "")] (some "A"),
     mkRow "w" "wait_for_response" [("a", "")] none "60",
@@ -222,7 +226,11 @@ def exRows : List CoreSheet.CRow :=
     mkRow "g" "split_by_group" [("y", ""), ("n", "")] none,
     mkRow "m" "send_message" [("g", "members"), ("w", "")] (some "M"),
     mkRow "v" "split_by_value" [("g", "")] none "" "@fields.x",
-    mkRow "z" "send_message" [("v", "7"), ("t", "")] (some "Z") ]
+    mkRow "z" "send_message" [("v", "7"), ("t", "")] (some "Z"),
+    mkRow "" "hard_exit" [("g", "")] none,
+    mkRow "" "go_to" [("z", ""), ("v", "")] none "" "" "" "" "" none ["a"],
+    mkRow "q" "send_message" [("", "")] (some "Q"),
+    mkRow "" "loose_exit" [("q", "")] none ]
 
 /-- the two traces of a sheet (compiler model / reference) under an environment, when both exist -/
 def bothTraces (rows : List CoreSheet.CRow) (env : Nat → Nat) (n : Nat) : Option (List Obs × List Obs) :=
@@ -231,23 +239,23 @@ def bothTraces (rows : List CoreSheet.CRow) (env : Nat → Nat) (n : Nat) : Opti
   | .ok out, .ok r => some (trace ⟨false, true⟩ (Compile.renderOut out) env n, trace ⟨false, true⟩ r env n)
   | _, _ => none
 
-/-- non-vacuity: the sheet is in the fragment, the compiler model compiles it (nine nodes), the
-reference interpretation exists (nine nodes) — and, as the theorem says, the traces agree (checked
+/-- non-vacuity: the sheet is in the fragment, the compiler model compiles it (ten nodes), the
+reference interpretation exists (ten nodes) — and, as the theorem says, the traces agree (checked
 here for two answer streams) -/
 example : CoreSheet.inFragment exRows = true ∧
     (∃ out, Compile.compile RefFlow.noArgsTests exTests (exRows.map CoreSheet.toEvent) = .ok out ∧
-      out.nodes.length = 9) ∧
-    (∃ r, RefFlow.refFlow (exRows.map CoreSheet.toRRow) = .ok r ∧ r.nodes.length = 9) ∧
+      out.nodes.length = 10) ∧
+    (∃ r, RefFlow.refFlow (exRows.map CoreSheet.toRRow) = .ok r ∧ r.nodes.length = 10) ∧
     (bothTraces exRows (fun k => k) 8).map (fun p => decide (p.1 = p.2)) = some true ∧
     (bothTraces exRows (fun k => 2 * k + 1) 8).map (fun p => decide (p.1 = p.2)) = some true := by
   refine ⟨by decide +kernel, ?_, ?_, by decide +kernel, by decide +kernel⟩
   · have h : (match Compile.compile RefFlow.noArgsTests exTests (exRows.map CoreSheet.toEvent) with
-        | .ok out => decide (out.nodes.length = 9) | .error _ => false) = true := by decide +kernel
+        | .ok out => decide (out.nodes.length = 10) | .error _ => false) = true := by decide +kernel
     split at h
     · rename_i out ho; exact ⟨out, ho, by simpa using h⟩
     · cases h
   · have h : (match RefFlow.refFlow (exRows.map CoreSheet.toRRow) with
-        | .ok r => decide (r.nodes.length = 9) | .error _ => false) = true := by decide +kernel
+        | .ok r => decide (r.nodes.length = 10) | .error _ => false) = true := by decide +kernel
     split at h
     · rename_i r hr; exact ⟨r, hr, by simpa using h⟩
     · cases h
